@@ -1476,8 +1476,18 @@ where
             return;
         };
 
-        let props_types = self.extract_props_type(maybe_setup);
-        let emits_types = self.extract_emits_type(maybe_setup);
+        // options written by the user win, so nothing has to be derived for them
+        // (deriving props may import `mergeDefaults`, which would then be unused)
+        let props_types = if has_define_component_option(call_expr, "props") {
+            None
+        } else {
+            self.extract_props_type(maybe_setup)
+        };
+        let emits_types = if has_define_component_option(call_expr, "emits") {
+            None
+        } else {
+            self.extract_emits_type(maybe_setup)
+        };
         if let Some(prop_types) = props_types {
             inject_define_component_option(call_expr, "props", prop_types);
         }
@@ -1522,6 +1532,27 @@ fn jsx_member_expr_to_expr(JSXMemberExpr { obj, prop, span }: &JSXMemberExpr) ->
         }),
         prop: MemberProp::Ident(prop.clone()),
     })
+}
+
+/// Would an injected `name` option be discarded: is it already written as a key of the options
+/// object literal passed to `defineComponent`, or is the options argument a spread?
+fn has_define_component_option(call: &CallExpr, name: &str) -> bool {
+    match call.args.get(1) {
+        Some(ExprOrSpread {
+            spread: Some(..), ..
+        }) => true,
+        Some(ExprOrSpread { spread: None, expr }) => match &**expr {
+            Expr::Object(object) => object.props.iter().any(|prop| {
+                prop.as_prop()
+                    .and_then(|prop| prop.as_key_value())
+                    .and_then(|key_value| key_value.key.as_ident())
+                    .map(|ident| ident.sym == name)
+                    .unwrap_or_default()
+            }),
+            _ => false,
+        },
+        _ => false,
+    }
 }
 
 fn inject_define_component_option(call: &mut CallExpr, name: &'static str, value: Expr) {
